@@ -76,7 +76,7 @@ mut("C03-wildcard-crosses-dots", "C03", "filepath.go", "		if strings.Count(match
 mut("C03-missing-filename-parent-skipped", "C03", "file.go", "		if extPath == \"\" {\n			return nil, fmt.Errorf(\"[%s]: %w\", layerPath, ErrMissingFile)\n		}", "		if extPath == \"\" {\n			return []string{}, nil\n		}")
 mut("C03-missing-directive-parent-skipped", "C03", "file.go", "		if len(matches) == 0 {\n			return nil, fmt.Errorf(\"%s: %w\", path, ErrMissingFile)\n		}", "		if len(matches) == 0 {\n			continue\n		}")
 mut("C03-symlink-own-name", "C03", "file.go", "	f.path = dest\n\n	return f.parentsFromFilename()", "	return f.parentsFromFilename()")
-mut("C03-parents-relative-to-cwd", "C03", "file.go", "		path = filepath.Join(filepath.Dir(f.path), path)", "		path = filepath.Clean(path)")
+mut("C03-parents-relative-to-cwd", "C03", "file.go", "		path = filepath.Join(dir, path)\n\n		matches, err := globFiles(path)", "		_ = dir\n		path = filepath.Clean(path)\n\n		matches, err := globFiles(path)")
 mut("C03-parent-false-ignored", "C03", "file.go", "	if noParent {\n		if len(parents) > 0 {", "	if noParent && len(f.docs) > 1 {\n		if len(parents) > 0 {")
 mut("C03-revert-skip-parent-fix", "C03", "parser.go", "	for _, doc := range f.docs {\n		doc.PopMapValue(\"$parent\")\n	}\n", "")
 mut("C03-unreadable-parent-skipped", "C03", "file.go", "		parentFiles, err := p.loadFileAndParents(parent, f)\n		if err != nil {\n			return nil, err\n		}", "		parentFiles, err := p.loadFileAndParents(parent, f)\n		if err != nil {\n			if strings.Contains(err.Error(), \"bkl error\") {\n				return nil, err\n			}\n			continue\n		}", "an I/O error on a parent layer (not a bkl error) silently skips the layer")
